@@ -1954,6 +1954,14 @@ class DFA(fa.FA):
                 self.fail: Optional[Node] = None
                 self.successors: Dict[str, Node] = {}
 
+        if "" in substrings:
+            # Every string contains (and ends with) the empty string
+            return (
+                cls.universal_language(input_symbols)
+                if contains
+                else cls.empty_language(input_symbols)
+            )
+
         root = Node()
         labels = {id(root): 0}
         final_states = set()
